@@ -170,6 +170,8 @@ pub fn signed_fixed_to_decimal(num: i128, decimals: u8) -> Option<Decimal> {
 fn rescale_to_mantissa(mut value: rust_decimal::Decimal, decimals: u8) -> crate::Result<i128> {
     use std::cmp::Ordering;
     let decimals = u32::from(decimals);
+    // `rescale` can leave a scale above 28, which `Display` cannot format: keep the input for messages.
+    let original = value;
     value.rescale(decimals);
     let scale = value.scale();
     let mantissa = value.mantissa();
@@ -179,12 +181,12 @@ fn rescale_to_mantissa(mut value: rust_decimal::Decimal, decimals: u8) -> crate:
             .and_then(|m| mantissa.checked_mul(m))
             .ok_or_else(|| {
                 crate::Error::custom(format!(
-                    "`value` is too big: value={value}, decimals={decimals}"
+                    "`value` is too big: value={original}, decimals={decimals}"
                 ))
             }),
         Ordering::Equal => Ok(mantissa),
         Ordering::Greater => Err(crate::Error::custom(format!(
-            "invalid scale: value={value}, decimals={decimals}"
+            "invalid scale: value={original}, decimals={decimals}"
         ))),
     }
 }
